@@ -16,16 +16,16 @@ from checks import stanza_common as SC, stack_common as ST
 
 PROPERTY = "C11"
 LEVEL = "model_checking"
-CODE = ["yowsup/layers/__init__.py:YowLayer.toLower (lock held while the lower layer runs)", "yowsup/layers/noise/layer.py:send/_handle_stream_event", "yowsup/layers/noise/layer_noise_segments.py:send",
+CODE = ["yowsup/layers/__init__.py:YowLayer.toLower (lock held while the lower layer runs)", "yowsup/layers/noise/layer.py:send/_handle_stream_event/receive/_flush_incoming_buffer", "yowsup/layers/protocol_iq/layer.py:recvIq", "yowsup/layers/noise/layer_noise_segments.py:send",
         "yowsup/layers/coder/layer.py:send/write", "yowsup/layers/logger/layer.py", "yowsup/layers/protocol_iq/layer.py:sendIq", "yowsup/layers/interface/interface.py:send",
         "consonance.transport.WANoiseTransport.send + dissononce CipherState.encrypt_with_ad (real, traced)"]
-BOUNDS = {"quick": "[+ 7 iq entity kinds between two other stanzas] " 
+BOUNDS = {"quick": "[+ lock order: receiving thread + 1..2 senders x 1..2 stanzas, every combination of per-thread cut points] [+ 7 iq entity kinds between two other stanzas] " 
                    "[+ socket-wire: network histories len<=6 after up+send with sends accepting all/half/nothing; second stack login pre-empted after k<=29 lines x 3 senders] " 
                    "[+ senders (4 selections) in the window between a reported close and its event, then reconnect; login with edge routing info (3 values)] " 
                    "2 threads x 2 stanzas and 3 threads x 1 stanza (application via the top layer, keep-alive via the iq layer, second application thread, senders at the coder layer); all interleavings of the extracted events; "
                    "races: 2 senders x 1 stanza, every shared written container, <=5 access positions of one sender x first access of the other per operation; 3 kinds of refused send before 2 concurrent senders; a peer drop followed by senders before the new handshake; frames of 64 KiB..3 MiB",
           "thorough": "up to 3 threads x 3 stanzas and 4 threads x 2 stanzas"}
-OUTSIDE = ["the handshake thread (C04, not applicable)", "atomicity below the traced events (single byte-code operations inside consonance/dissononce under the GIL)",
+OUTSIDE = ["the handshake thread (C04, not applicable)", "received stanzas other than a server ping (the reply path of other handlers)", "locks outside yowsup.layers and the noise layer module (consonance, queue internals)", "atomicity below the traced events (single byte-code operations inside consonance/dissononce under the GIL)",
            "shared state other than list/dict/bytearray/set objects touched by yowsup's own code on the send path (attribute rebinding, state inside consonance/dissononce beyond nonce and queue)",
            "more threads / stanzas than the bound"]
 ASSUMPTIONS = ["control flow of a send is data independent (re-checked on each run by extracting every trace twice with different payloads)",
@@ -42,6 +42,7 @@ class Tracer(object):
         self.phase = "build"
         self.nlocks = 0
         self.locks = []
+        self.abort = False            # set after a replay was judged: threads still waiting for a lock give up
 
     def ev(self, kind, arg=None):
         t = threading.current_thread().name
@@ -61,9 +62,9 @@ class Tracer(object):
                 held.discard(a)
         return held
 
-    def new_lock(self, real):
+    def new_lock(self, real, reentrant=False):
         self.nlocks += 1
-        l = TLock("lock#%d" % self.nlocks, self, real)
+        l = TLock("lock#%d" % self.nlocks, self, real, reentrant)
         self.locks.append(l)
         return l
 
@@ -77,15 +78,21 @@ class FakeThreading(object):
     def Lock(self):
         return self._tr.new_lock(self._real)
 
+    def RLock(self):
+        return self._tr.new_lock(self._real, reentrant=True)
+
     def __getattr__(self, n):
         return getattr(threading, n)
 
 
 class TLock(object):
-    def __init__(self, name, tr, real):
-        self.name, self.tr, self.real = name, tr, real
-        self.l = threading.Lock() if real else None
+    """a traced lock; a re-entrant one reports its outermost acquire/release only"""
+
+    def __init__(self, name, tr, real, reentrant=False):
+        self.name, self.tr, self.real, self.reentrant = name, tr, real, reentrant
+        self.l = (threading.RLock() if reentrant else threading.Lock()) if real else None
         self.held = False
+        self.owner, self.depth = None, 0
         self.private = False
         if tr.phase == "send":
             # a lock created WHILE a stanza is being sent (lazy creation): if no pre-existing lock is held at that moment two
@@ -94,21 +101,47 @@ class TLock(object):
             self.private = not shared_held
             tr.ev("create", name)
 
+    def _real_acquire(self):
+        while not self.l.acquire(timeout=0.2):
+            if self.tr.abort:
+                raise RuntimeError("gave up waiting for %s after the replay was judged" % self.name)
+
     def acquire(self, *a, **k):
+        me = threading.get_ident()
+        if self.reentrant and self.owner == me:
+            self.depth += 1
+            if self.real:
+                self.l.acquire()
+            return True
         self.tr.ev("acq", self.name)
         if self.real:
-            self.l.acquire()
+            self._real_acquire()
         else:
             if self.held:
                 raise RuntimeError("lock %s is acquired while it is still held (single-threaded extraction): a later sender would block for ever" % self.name)
         self.held = True
+        self.owner, self.depth = me, 1
         return True
 
     def release(self):
+        if self.reentrant and self.depth > 1:
+            self.depth -= 1
+            if self.real:
+                self.l.release()
+            return
         self.held = False
+        self.owner, self.depth = None, 0
         if self.real:
             self.l.release()
         self.tr.ev("rel", self.name)
+
+    def __enter__(self):
+        self.acquire()
+        return self
+
+    def __exit__(self, *a):
+        self.release()
+        return False
 
 
 def build(tr, real_locks):
@@ -148,13 +181,18 @@ def build(tr, real_locks):
             self.out.append(bytes(d))
 
     import yowsup.layers as LM
+    import yowsup.layers.noise.layer as NL
     LM.threading = FakeThreading(tr, real_locks)
+    NL.threading = LM.threading          # the lock the noise layer holds while it delivers received stanzas
     layers = YowStackBuilder.getDefaultLayers() + (YowInterfaceLayer,)
     st = YowStack(layers, reversed=False)
     insts = [st.getLayer(i) for i in range(len(layers))]
     for i, l in enumerate(insts):
         if isinstance(getattr(l, "lock", None), TLock):
             l.lock.name = "%d:%s" % (i, type(l).__name__)
+        for attr, v in sorted(vars(l).items()):
+            if isinstance(v, TLock) and attr != "lock":
+                v.name = "%d:%s.%s" % (i, type(l).__name__, attr)
     net, seg, noise = insts[0], insts[1], insts[2]
     disp = Disp()
     net._dispatcher, net.connected, net.state = disp, True, net.STATE_CONNECTED
@@ -164,6 +202,7 @@ def build(tr, real_locks):
     send_cs.__dict__["armed"] = True
     proto = noise._wa_noiseprotocol
     proto._machine.set_state("transport")
+    proto._last_triggered_state = "transport"      # the state callback ran when the handshake finished, not at the first stanza
     proto._transport = WANoiseTransport(noise._stream, send_cs, recv_cs)
     noise._stream.set_events_callback(noise._handle_stream_event)
     q = noise._stream._writequeue
@@ -198,6 +237,22 @@ def do_send(kind, insts, iq, variant=0):
         insts[-1].send(OutgoingChatstateProtocolEntity("composing" if variant % 2 == 0 else "paused", "4915900000%03d@s.whatsapp.net" % variant))
     elif kind == "keepalive":
         iq.sendIq(PingIqProtocolEntity())
+    elif kind == "receiver":
+        # the receiving thread: an encrypted ping of the server arrives at the noise layer, is delivered upwards and answered by the
+        # iq layer -- the pong is a stanza sent from inside the delivery, with whatever the receive path holds at that moment
+        from yowsup.structs import ProtocolTreeNode
+        from yowsup.layers.coder.encoder import WriteEncoder
+        from yowsup.layers.coder.tokendictionary import TokenDictionary
+        from dissononce.processing.impl.cipherstate import CipherState
+        from dissononce.cipher.aesgcm import AESGCMCipher
+        noise = insts[2]
+        if not hasattr(noise, "_verif_peer"):
+            noise._verif_peer = CipherState(AESGCMCipher())
+            noise._verif_peer.initialize_key(bytes(range(32)))
+            noise._wa_noiseprotocol._transport._recv_cipherstate.initialize_key(bytes(range(32)))
+        node = ProtocolTreeNode("iq", {"type": "get", "xmlns": "urn:xmpp:ping", "id": "srv-ping-%d" % variant, "from": "s.whatsapp.net"})
+        plain = WriteEncoder(TokenDictionary()).protocolTreeNodeToBytes(node)
+        noise.receive(bytes(noise._verif_peer.encrypt_with_ad(b"", bytes(plain))))
     elif kind in ("coder", "coder2"):
         # a sender that hands stanzas to the coder layer itself (a stack without the protocol layers above it, as the property's
         # "through coder, noise, segment and network layers"): no upper layer's lock serialises such senders
@@ -464,6 +519,167 @@ def replay_schedule(ctx, kinds, n_ops, lines=None):
         return [("every stanza handed to the coder layer reaches the peer exactly once, unchanged", ok and not bad and not left and not errs and len(handed) == total)]
     return [("extracted traces are data independent", indep),
             ("no interleaving corrupts the stream (header/payload adjacency, nonce order == wire order, no nonce reuse)", ok and frames == total and not errs and not dead[0] or (dead[0] and ok))]
+
+
+# ---- lock order: the receiving thread answers from inside its delivery while other threads send --------------------------------------
+def _flat(threads):
+    return [[e for op in ops for e in op] for (_n, ops) in threads]
+
+
+def encode_deadlock(ctx, threads):
+    """a reachable state in which every thread has either finished or is about to acquire a lock another thread holds.
+    cut_i = number of events thread i has executed; the executed prefixes must be schedulable under lock exclusion"""
+    flat = _flat(threads)
+    cons, T, cut = [], {}, []
+    for ti, evs in enumerate(flat):
+        c = ctx.int("cut_%d" % ti).t
+        cut.append(c)
+        cons.append(z3.And(c >= 0, c <= len(evs)))
+        prev = None
+        for ei in range(len(evs)):
+            v = ctx.int("d_%d_%d" % (ti, ei)).t
+            T[(ti, ei)] = v
+            if prev is not None:
+                cons.append(prev < v)
+            prev = v
+    allv = list(T.values())
+    cons.append(z3.Distinct(allv))
+    cons += [z3.And(v >= 0, v < len(allv)) for v in allv]
+    sections = {}                      # lock -> [(thread, index of the acquire, index of the matching release)]
+    for ti, evs in enumerate(flat):
+        for ei, (k, a) in enumerate(evs):
+            if k == "acq":
+                rel = [ej for ej in range(ei + 1, len(evs)) if evs[ej] == ("rel", a)]
+                sections.setdefault(a, []).append((ti, ei, rel[0] if rel else len(evs)))
+    done = lambda ti, ei: cut[ti] > ei           # the event was executed
+    for lock, secs in sections.items():
+        for i in range(len(secs)):
+            for j in range(i + 1, len(secs)):
+                (t0, a0, r0), (t1, a1, r1) = secs[i], secs[j]
+                if t0 == t1:
+                    continue
+                first0 = z3.And(done(t0, r0), T[(t0, r0)] < T[(t1, a1)]) if r0 < len(flat[t0]) else z3.BoolVal(False)
+                first1 = z3.And(done(t1, r1), T[(t1, r1)] < T[(t0, a0)]) if r1 < len(flat[t1]) else z3.BoolVal(False)
+                cons.append(z3.Implies(z3.And(done(t0, a0), done(t1, a1)), z3.Or(first0, first1)))
+    blocked, finished = [], []
+    for ti, evs in enumerate(flat):
+        alts = []
+        for ei, (k, a) in enumerate(evs):
+            if k != "acq":
+                continue
+            holders = [z3.And(done(tj, aj), z3.Not(done(tj, rj)) if rj < len(flat[tj]) else z3.BoolVal(True))
+                       for (tj, aj, rj) in sections.get(a, []) if tj != ti]
+            if holders:
+                alts.append(z3.And(cut[ti] == ei, z3.Or(holders)))
+        blocked.append(z3.Or(alts) if alts else z3.BoolVal(False))
+        finished.append(cut[ti] == len(evs))
+    stuck = z3.And(z3.And([z3.Or(b, f) for b, f in zip(blocked, finished)]), z3.Or(blocked))
+    return cons, stuck
+
+
+def h_lock_order(ctx, kinds, n_ops):
+    import yowsup.layers as LM
+    import yowsup.layers.noise.layer as NL
+    try:
+        if H.sym(ctx):
+            threads, indep = _threads(kinds, n_ops)
+            cons, stuck = encode_deadlock(ctx, threads)
+            for c in cons:
+                ctx.assume(c)
+            rtr = [t for (n, ops) in threads if n.endswith(":receiver") for t in ops]
+            ctx.note("trace of the receiving thread: %s" % (rtr[:1],))
+            answered = all(sum(1 for e in t if e[0] == "write") == 2 for t in rtr)
+            return [("extracted traces are data independent", indep),
+                    ("the received ping is answered from inside the delivery (header+payload written by the receiving thread)", answered),
+                    ("no reachable state in which every unfinished thread waits for a lock that another waiting or finished thread holds "
+                     "(receive path and send paths take their locks in compatible orders)", z3.Not(stuck))]
+        return replay_lock_order(ctx, kinds, n_ops)
+    finally:
+        LM.threading = threading
+        NL.threading = threading
+
+
+def replay_lock_order(ctx, kinds, n_ops):
+    """real threads on the real stack: the executed prefixes in the solver's order, then everybody runs freely; judged by who finishes"""
+    threads, indep = _threads(kinds, n_ops)
+    flat = _flat(threads)
+    cuts = [min(max(int(ctx.values.get("cut_%d" % ti, len(evs))), 0), len(evs)) for ti, evs in enumerate(flat)]
+    order = sorted((ctx.values.get("d_%d_%d" % (ti, ei), 0), threads[ti][0], ei) for ti in range(len(flat)) for ei in range(cuts[ti]))
+    cutof = {threads[ti][0]: cuts[ti] for ti in range(len(flat))}
+    tr = Tracer()
+    st, insts, disp, iq, key = build(tr, True)
+    cond = threading.Condition()
+    pos, dead = [0], [False]
+
+    def gate(tname, i):
+        with cond:
+            if i >= cutof.get(tname, 0):
+                # beyond this thread's prefix: runs freely once every prefix is in place
+                while not dead[0] and pos[0] < len(order):
+                    if not cond.wait(timeout=5):
+                        dead[0] = True
+                        cond.notify_all()
+                return
+            while not dead[0] and not (pos[0] < len(order) and order[pos[0]][1] == tname and order[pos[0]][2] == i):
+                if not cond.wait(timeout=5):
+                    dead[0] = True
+                    cond.notify_all()
+            pos[0] += 1
+            cond.notify_all()
+    tr.gate = gate
+    errs, finished = [], []
+
+    def run(kind, n, variant):
+        try:
+            for j in range(n):
+                do_send(kind, insts, iq, variant + j)
+            finished.append(threading.current_thread().name)
+        except Exception as e:
+            errs.append(e)
+    ths = [threading.Thread(target=run, name="T%d:%s" % (i, k), args=(k, n_ops, 10 * i)) for i, k in enumerate(kinds)]
+    for t in ths:
+        t.daemon = True
+        t.start()
+    import time
+    end = time.time() + 12
+    for t in ths:
+        t.join(max(0.1, end - time.time()))
+    alive = [t.name for t in ths if t.is_alive()]
+    frames = _count_frames(disp, key)
+    tr.abort = True                    # whoever still waits for a lock gives up now
+    with cond:
+        dead[0] = True
+        cond.notify_all()
+    for t in ths:
+        t.join(5)
+    tr.gate = None
+    total = len(kinds) * n_ops
+    ctx.note("finished %s, still waiting after 12 s: %s, frames on the wire %d of %d" % (finished, alive, frames, total))
+    if dead[0] and not alive and pos[0] < len(order) and frames == total and not errs:
+        return [("schedule not realisable with real threads (nothing to judge)", True)]
+    return [("extracted traces are data independent", indep),
+            ("no reachable state in which every unfinished thread waits for a lock that another waiting or finished thread holds "
+             "(receive path and send paths take their locks in compatible orders)", not alive and not errs and frames == total)]
+
+
+def _count_frames(disp, key):
+    from dissononce.processing.impl.cipherstate import CipherState
+    from dissononce.cipher.aesgcm import AESGCMCipher
+    peer = CipherState(AESGCMCipher())
+    peer.initialize_key(key)
+    stream, i, frames = b"".join(disp.out), 0, 0
+    try:
+        while i < len(stream):
+            n = int.from_bytes(stream[i:i + 3], "big")
+            ct = stream[i + 3:i + 3 + n]
+            if len(ct) != n:
+                break
+            peer.decrypt_with_ad(b"", ct)
+            frames += 1
+            i += 3 + n
+    except Exception:
+        pass
+    return frames
 
 
 # ---- data races on state shared by the senders ------------------------------------------------------------------------------------------
@@ -856,7 +1072,10 @@ def cases(tier):
           dict(name="races[app+keepalive,1 send]", fn=h_races, args=(("app", "keepalive"), 1), timeout_s=900, weight=20, keep_samples=64),
           dict(name="threads[app+keepalive,2 sends]", fn=h_schedules, args=(("app", "keepalive"), 2), timeout_s=900, weight=10),
           dict(name="threads[app+app2,2 sends]", fn=h_schedules, args=(("app", "app2"), 2), timeout_s=900, weight=10),
-          dict(name="threads[app+keepalive+app2,1 send]", fn=h_schedules, args=(("app", "keepalive", "app2"), 1), timeout_s=900, weight=10)]
+          dict(name="threads[app+keepalive+app2,1 send]", fn=h_schedules, args=(("app", "keepalive", "app2"), 1), timeout_s=900, weight=10),
+          dict(name="lock-order[receiver+app,2 stanzas]", fn=h_lock_order, args=(("receiver", "app"), 2), timeout_s=900, weight=10),
+          dict(name="lock-order[receiver+keepalive+app,1 stanza]", fn=h_lock_order, args=(("receiver", "keepalive", "app"), 1), timeout_s=900, weight=10),
+          dict(name="threads[receiver+app,1 stanza]", fn=h_schedules, args=(("receiver", "app"), 1), timeout_s=900, weight=10)]
     if tier != "quick":
         cs.append(dict(name="races[coder+coder2,2 sends]", fn=h_races, args=(("coder", "coder2"), 2), timeout_s=1800, weight=40, keep_samples=128))
         cs.append(dict(name="races[coder+coder2+app,1 send]", fn=h_races, args=(("coder", "coder2", "app"), 1), timeout_s=1800, weight=40, keep_samples=128))
